@@ -111,6 +111,7 @@ func verifyFunction(prog *Program, fn *ssa.Function, ctr *Contract, opts VerifyO
 	if fn.Signature.Recv() != nil && len(fn.Params) > 0 {
 		fr.params["self"] = fr.vals[fn.Params[0]]
 	}
+	x.aliasEnv(fn, fr.params) // parameters, receivers and captured variables renamed since the contracts were written
 	if fn.Name() == "init" && fn.Synthetic != "" && fn.Pkg != nil {
 		// a package initializer runs its body exactly once: verify that run (guard not yet set)
 		g := "global." + shortPkg(fn.Pkg.Pkg.Path()) + ".init$guard"
